@@ -58,7 +58,7 @@ def r1(cx):
         cx.ob("C09.R1", "on_%s:under-match" % kind, both and only,
               "on_%s: storing and delivering happen exactly when the channel filter matches (guards %s)" % (kind, [gdesc(m, g) for g in gm]), user[0].loc)
         # the stored message is the delivered one
-        same = pa.root(f, store[0].args[4]) == ("param", 2, f.names.get(2), ()) or _derefs_to_param(f, pa, store[0].args[4], 2)
+        same = any(pa.root(f, a) == ("param", 2, f.names.get(2), ()) or _derefs_to_param(f, pa, a, 2) for a in store[0].args if a[0] != "k")
         cx.ob("C09.R1", "on_%s:same-message" % kind, same, "on_%s: the message stored is the message delivered" % kind, store[0].loc)
     cx.floor("C09.R1", 12)
 
@@ -108,6 +108,16 @@ def r2(cx):
     cx.ob("C09.R2", "store_if:chan-id", have["chan"], "a message row is created only when the channel has an id", c.loc)
     cx.ob("C09.R2", "store_if:first-delivery", have["first"], "a message row is created only on first delivery (retry_times == 0): redeliveries do not create rows", c.loc)
     cx.ob("C09.R2", "store_if:nothing-else", not extra, "no other condition decides whether the row is created (found %s)" % (extra or "none"), c.loc)
+    # the collection written is the one the store holds NOW (looked up when the message is delivered): a collection
+    # captured when the handler was registered goes stale when a store plug-in registers its own collection afterwards
+    recv = pa.root(f, c.args[0])
+    n_ = 0
+    while recv[0] == "call" and n_ < 4 and (Call(f, recv[2]).callee.get("decl") or "") in ("std::ops::Deref::deref",):
+        recv = pa.root(f, Call(f, recv[2]).args[0])
+        n_ += 1
+    cur = recv[0] == "call" and recv[1].endswith("Store::messages")
+    cx.ob("C09.R2", "store_if:current-collection", cur,
+          "the row is created in `store().messages()` as looked up at delivery time%s" % ("" if cur else " - but the collection comes from %s (captured / passed in earlier: not the store's current collection)" % root_str(recv)), c.loc)
     # the row is built from this message for this channel
     row = pa.root(f, c.args[1])
     ok = False
@@ -117,7 +127,7 @@ def r2(cx):
         a1 = pa.root(f, ic.args[1])
         ok = a0[0] == "param" and a0[2] == "message" and a1[0] == "param" and a1[2] == "chan_id"
     cx.ob("C09.R2", "store_if:row", ok, "the row is `message.into(chan_id, pattern)` of the delivered message", c.loc, row=root_str(row))
-    cx.floor("C09.R2", 5)
+    cx.floor("C09.R2", 6)
 
 
 def _expr_call(f, pv, pa, c):
